@@ -396,10 +396,39 @@ func (obj *Array) LoadForm() Object {
 	}
 	// An array without elements has no contents to provide.
 	if contents := obj.AsList(); 0 < len(contents) {
-		form = append(form, Symbol(":initial-contents"), List{quoteSymbol, contents})
+		if quotable(contents) {
+			form = append(form, Symbol(":initial-contents"), List{quoteSymbol, contents})
+		} else {
+			// An element that is more than its printed text (a vector with
+			// a fill pointer, a hash table, an instance) is rebuilt from
+			// its own load form.
+			form = append(form, Symbol(":initial-contents"), contents.LoadForm())
+		}
 	}
 	if obj.adjustable {
 		form = append(form, Symbol(":adjustable"), True)
+	} else {
+		// make-array makes an adjustable array unless told otherwise.
+		form = append(form, Symbol(":adjustable"), nil)
 	}
 	return form
+}
+
+// quotable returns true if the value is rebuilt by reading its printed text,
+// numbers, strings, characters, symbols, and lists of those.
+func quotable(v Object) bool {
+	switch tv := v.(type) {
+	case nil, Number, String, Character, Symbol:
+		return true
+	case List:
+		for _, e := range tv {
+			if !quotable(e) {
+				return false
+			}
+		}
+		return true
+	case Tail:
+		return quotable(tv.Value)
+	}
+	return false
 }
